@@ -10,6 +10,10 @@
 
 namespace mc {
 
+// ebpps_sketch::merge calls an unqualified swap(): it is only found through ADL if a template argument lives in a
+// namespace that declares swap (std for std::allocator). Make it findable for sketches instantiated with mc::TrackAlloc.
+using std::swap;
+
 struct Block { size_t bytes; int arena; };
 struct AllocLedger {
   std::map<void*, Block> live;
